@@ -37,7 +37,7 @@ def run(run, binfo):
     rows = []
     for renamed, same_str, enforce_new, new_ovr, old_ovr, where, shared in itertools.product(
             [True, False], [True, False], [True, False], [False, True], ['absent', 'arbitrary', 'alias'],
-            ['main', 'dir'], [False, True]):
+            ['main', 'dir', 'both'], [False, True]):
         if not renamed and old_ovr != 'absent':
             continue        # same-name deprecation: an "old name" override IS a new-name override
         rows.append((renamed, same_str, enforce_new, new_ovr, old_ovr, where, shared))
@@ -67,8 +67,16 @@ def run(run, binfo):
             fs.mkdir('policy.d')
             if where == 'main':
                 fs.write_main(files, 'yaml')
-            else:
+            elif where == 'dir':
                 fs.write_main({'unrelated': '@'}, 'json')
+                fs.write('policy.d', 'ovr.yaml', files, 'yaml')
+            else:
+                # the same names overridden in two layered files with different values: the later
+                # layer (the directory) must govern, also in the record of file rules
+                stale = {k: ('role:stale' if not v.startswith('rule:') else 'role:stale_alias') for k, v in files.items()}
+                if old_ovr == 'arbitrary' and renamed:
+                    stale[old_name] = 'rule:' + new_name      # an alias superseded by a real override
+                fs.write_main(stale, 'json')
                 fs.write('policy.d', 'ovr.yaml', files, 'yaml')
             fs.sync()
             e = make_enforcer(root, defaults, enforce_new_defaults=enforce_new)
